@@ -1003,7 +1003,7 @@ func (g *FnGen) globalWriteCheck(target ssa.Value, reach string, pos token.Pos) 
 			}
 		}
 	}
-	if name == "" || g.fn.Name() == "init" {
+	if name == "" || g.isInit() {
 		return
 	}
 	kind := fmt.Sprintf("frame.global(%s)", name)
